@@ -36,7 +36,13 @@ fn main() {
     exec::install_panic_hook();
     let t = std::thread::Builder::new()
         .stack_size(512 << 20)
-        .spawn(move || real_main(args))
+        .spawn(move || match exec::contain_plain(|| real_main(args)) {
+            Ok(c) => c,
+            Err(m) => {
+                eprintln!("harness panic: {m}");
+                2
+            }
+        })
         .unwrap();
     let code = t.join().unwrap_or(2);
     std::process::exit(code);
